@@ -31,6 +31,8 @@ var zzC19Scripts = []string{
 	"return len(M) + len(keys(M));",
 	"print({\"z\": 1, \"y\": [1, 2], \"x\": {\"q\": 1, \"p\": 2}}); return 1;",
 	"switch (A) { case 1, 2 { return \"low\"; } case 3 { return \"three\"; } default { return \"other\"; } }",
+	"h = {A: \"x\", B: \"y\", \"5\": \"z\"}; return string(h);",
+	"h = {A: \"x\", B: \"y\", \"5\": \"z\", 2.5: \"w\"}; r = \"\"; foreach k, v in h { r = r + v; } return r;",
 }
 
 type zzC19Run struct {
@@ -109,16 +111,26 @@ func ZZ_C19_MapOrder(sv *zzsv.T) {
 }
 
 func zzC19Body(sv *zzsv.T) {
-	k := sv.Choice("script", len(zzC19Scripts))
+	k := sv.Choice("script", sv.Param("scripts", len(zzC19Scripts)-1, len(zzC19Scripts))) // the 4-key script multiplies permutations: thorough only
 	src := zzC19Scripts[k]
 	sv.Note("script", src)
-	a := sv.Int64("A")
-	b := sv.Int64("B")
-	sv.Assume(a >= 0)
-	sv.Assume(a <= 3)
-	sv.Assume(b >= 0)
-	sv.Assume(b <= 3)
-	sv.Region("duplicate_key_in_literal", k == 5 || k == 6 || ((k == 7) && a == b))
+	var a, b int64
+	if k == 14 || k == 15 {
+		// integer keys of one and two digits next to string/float keys:
+		// representative pairs (symbolic keys would have to be rendered and
+		// ordered digit by digit under every permutation)
+		pairs := [][2]int64{{9, 10}, {1, 2}, {2, 10}, {4, 6}, {5, 50}, {10, 11}}
+		pr := pairs[sv.Choice("keypair", len(pairs))]
+		a, b = pr[0], pr[1]
+	} else {
+		a = sv.Int64("A")
+		b = sv.Int64("B")
+		sv.Assume(a >= 0)
+		sv.Assume(a <= 3)
+		sv.Assume(b >= 0)
+		sv.Assume(b <= 3)
+	}
+	sv.Region("duplicate_key_in_literal", k == 5 || k == 6 || ((k == 7 || k == 14 || k == 15) && a == b))
 	sv.Region("keys_printing_alike", k == 3 || k == 4)
 	sv.MapOrderNondet(false)
 	r1 := zzC19Do(sv, src, a, b) // reference: insertion order everywhere
